@@ -271,6 +271,17 @@ func (env *Env) ident(name string) Val {
 	if v, ok := env.vars[name]; ok {
 		return v
 	}
+	if strings.HasPrefix(name, "lastrecv_") {
+		return Val{T: types.Typ[types.UnsafePointer], C: []Term{env.cur().get(tr.e, "L$lastrecv$"+strings.TrimPrefix(name, "lastrecv_"), SInt)}}
+	}
+	if strings.HasPrefix(name, "lastres_") {
+		// what the latest call of <func> returned; usable in postconditions too. A function that was never called (on any
+		// path translated so far) returned nothing one can rely on: an arbitrary value, so a claim about it has to fail.
+		if v, ok := tr.lastRes[strings.TrimPrefix(name, "lastres_")]; ok {
+			return v
+		}
+		return Val{T: types.Universe.Lookup("error").Type(), C: []Term{tr.e.fresh("nolastres", SInt)}}
+	}
 	switch name {
 	case "calleefailed":
 		// activation-local ghost: some call made so far by the function under verification returned a non-nil error
